@@ -192,6 +192,40 @@ def register(R):
         bounded='bounded_release',
         note='bounded: pool of exactly two workers (loops unrolled), ownership/liveness/capacity symbolic'))
 
+  # ---- WorkerPool.run: the worker taken for a task is given back on every exit ---------------------------------------
+  def _setup_run(it, env):
+    _setup_pool(it, env)
+    it.ghost['w0'], it.ghost['w1'] = env['w0'], env['w1']
+    for w in (env['w0'], env['w1']):
+      it.assume(it.spec(INV, {'self': w}))
+
+  def _result_may_fail(it, v, a, k):          # future.result(): the value, or the task's failure
+    if it.branch(it.fresh_bool('task_failed')):
+      raise_exc = VExc('UserError', [], sym=it.fresh_obj('task_error'))
+      from pyvc.interp import PyRaise
+      raise PyRaise(raise_exc)
+    return VOpaque(it.fresh_obj('task_result'))
+  R.opaque_methods['result'] = _result_may_fail
+  R.opaque_methods['set'] = lambda it, v, a, k: VOpaque(it.fresh_obj('task'))
+
+  # ASSUMED: waiting for the pool, wrapping the task and submitting it do not touch worker ownership
+  R.add(Contract(f'{CW}::WorkerPool.wait_until_alive', 'trusted', types=dict(self='WorkerPool', deadline_secs='int', minimum_num_workers='int'),
+                 may_raise=['ValueError']))
+  R.add(Contract(f'{CU}::Task.maybe_as_task', 'trusted', types=dict(cls='obj', task='obj'), ret='obj'))
+  R.add(Contract(f'{CU}::CourierClient.submit', 'trusted', types=dict(self='Worker', task='obj'), ret='obj', may_raise=['UserError']))
+  R.add(Contract(
+      f'{CW}::WorkerPool.run', P, types=dict(self='WorkerPool', task='obj'), ret='obj', setup=_setup_run,
+      modifies=['w0._worker_pool', 'lock:w0._lock', 'w1._worker_pool', 'lock:w1._lock'],
+      ensures=["ncalls('Worker.release') == 1", "local('worker')._worker_pool is None"],
+      raises_ensures={
+          # the task (or its submission) failed: the worker is given back all the same
+          'UserError': ["ncalls('Worker.release') == 1", "local('worker')._worker_pool is None"],
+          # no worker became available (or the pool never came up): nothing was taken, nothing to give back
+          'ValueError': ["ncalls('Worker.release') == 0"]},
+      loops={0: dict(invariant=["ncalls('Worker.release') == 0"], retype={'worker': 'Worker?'})},
+      bounded='bounded_release',
+      note='exactly one release per successful acquisition, on the normal and on the failing exit (D9 was the missing finally)'))
+
   R.bounded_checks[P] = [
       ('bounded_registry', 'register/refresh/unregister histories vs reference registry'),
       ('liveness_after_death', 'late heartbeat / pending completion after a worker was declared dead (CourierClient.is_alive)'),
